@@ -496,7 +496,8 @@ func runC24x(s C24Scenario, allocOnly bool) pbt.Outcome {
 	}
 	cCopy := append([]byte{}, c...)
 	zstdHangOpen := s.Alg == 4 && pbt.Open("C24", "zstd-stream-decoder-deadlock")
-	if !allocOnly {
+	if !allocOnly && (len(x)*31+s.Alg)%3 == 0 {
+		// (one case in three: the clause costs several extra compressions)
 		// A compressed form is a value: using the compressor again — the same instance, another
 		// instance, another goroutine — must not change a form handed out earlier (the chronicler
 		// keeps compressing blocks while earlier blocks are still being written).
@@ -657,7 +658,7 @@ func c24ResultsAreValues(name string, alg int, comp compressor.Compressor, x, c,
 				}
 			}()
 			cm := compressor.New(compressor.Type(alg))
-			for r := 0; r < 4; r++ {
+			for r := 0; r < 2; r++ {
 				v := variant(16 + 4*g + r)
 				cv, err := cm.Compress(v)
 				if err != nil {
